@@ -22,24 +22,32 @@ pub const ALPHA: [&str; 27] = [
 pub const CONTEXTS: [&str; 4] = ["unquoted", "single-quote", "double-quote", "cd"];
 const PREFIX: &str = "ab";
 
+/// where the entry lives relative to the shell's working directory, and how that is typed
+pub const LOCATIONS: [(&str, &str); 5] = [("cwd", ""), ("subdirectory", "sd/"), ("home", "~/"), ("variable", "$VDIR/"), ("subdirectory-with-blank", "s d/")];
+
 #[derive(Clone)]
 pub struct Case {
     ctx: usize,
     name: String,
+    loc: usize,
 }
 
 impl CaseRepr for Case {
     fn repr(&self) -> Value {
-        json!({"context": CONTEXTS[self.ctx], "entry_name": format!("PREFIX{}", self.name), "typed": typed_line(self.ctx).replace(PREFIX, "PREFIX") + "<TAB><Enter>"})
+        json!({"context": CONTEXTS[self.ctx], "location": LOCATIONS[self.loc].0, "entry_name": format!("PREFIX{}", self.name), "typed": typed_line(self.ctx, self.loc).replace(PREFIX, "PREFIX") + "<TAB><Enter>"})
     }
 }
 
-fn typed_line(ctx: usize) -> String {
+fn typed_line(ctx: usize, loc: usize) -> String {
+    let mut l = LOCATIONS[loc].1.to_string();
+    if l.contains(' ') && (CONTEXTS[ctx] == "unquoted" || CONTEXTS[ctx] == "cd") {
+        l = l.replace(' ', "\\ ");      // typed with an escaped blank outside quotes
+    }
     match CONTEXTS[ctx] {
-        "unquoted" => format!("vh-argv {}", PREFIX),
-        "single-quote" => format!("vh-argv '{}", PREFIX),
-        "double-quote" => format!("vh-argv \"{}", PREFIX),
-        _ => format!("cd {}", PREFIX),
+        "unquoted" => format!("vh-argv {}{}", l, PREFIX),
+        "single-quote" => format!("vh-argv '{}{}", l, PREFIX),
+        "double-quote" => format!("vh-argv \"{}{}", l, PREFIX),
+        _ => format!("cd {}{}", l, PREFIX),
     }
 }
 
@@ -51,15 +59,31 @@ fn name_class(name: &str) -> String {
 }
 
 /// ok / deviation kind + what was observed
-pub fn verdict(ctx: usize, name: &str, workdir: &str) -> (String, Value) {
+pub fn verdict(ctx: usize, name: &str, workdir: &str, loc: usize) -> (String, Value) {
     let full = format!("{}{}", PREFIX, name);
-    let path = format!("{}/{}", workdir, full);
+    // what the program must receive: the entry's path as typed, with `~` / the variable replaced by the directory
+    let (dir, expect_prefix) = match LOCATIONS[loc].0 {
+        "cwd" => (workdir.to_string(), String::new()),
+        "subdirectory" => (format!("{}/sd", workdir), "sd/".to_string()),
+        "home" => (format!("{}/home", workdir), format!("{}/home/", workdir)),
+        "subdirectory-with-blank" => (format!("{}/s d", workdir), "s d/".to_string()),
+        _ => (format!("{}/vdir", workdir), format!("{}/vdir/", workdir)),
+    };
+    let _ = std::fs::create_dir_all(&dir);
+    std::env::set_var("HOME", format!("{}/home", workdir));
+    std::env::set_var("VDIR", format!("{}/vdir", workdir));
+    // single quotes keep `~` and `$VDIR` literal: those location / context pairs are not meaningful
+    if CONTEXTS[ctx] == "single-quote" && (loc == 2 || loc == 3) || CONTEXTS[ctx] == "double-quote" && LOCATIONS[loc].0 == "home" {
+        return ("skipped".into(), Value::Null);
+    }
+    let path = format!("{}/{}", dir, full);
+    let full = format!("{}{}", expect_prefix, full);
     let for_dir = CONTEXTS[ctx] == "cd";
     let made = if for_dir { std::fs::create_dir(&path).is_ok() } else { std::fs::write(&path, b"x").is_ok() };
     if !made {
         return ("machinery".into(), json!(format!("cannot create {:?}", path)));
     }
-    let typed = typed_line(ctx);
+    let typed = typed_line(ctx, loc);
     let res = explore::guarded(|| {
         let start = vh::escaped_word_start(&typed);
         let word = &typed[start..];
@@ -108,10 +132,15 @@ pub fn verdict(ctx: usize, name: &str, workdir: &str) -> (String, Value) {
     });
     let _ = if for_dir { std::fs::remove_dir_all(&path) } else { std::fs::remove_file(&path) };
     // anything a wrongly quoted line may have created while being planned (e.g. a command substitution that ran)
-    if let Ok(rd) = std::fs::read_dir(workdir) {
-        for e in rd.flatten() {
-            let p = e.path();
-            let _ = if p.is_dir() { std::fs::remove_dir_all(&p) } else { std::fs::remove_file(&p) };
+    for d in [workdir.to_string(), dir.clone()] {
+        if let Ok(rd) = std::fs::read_dir(&d) {
+            for e in rd.flatten() {
+                let p = e.path();
+                let keep = p.is_dir() && ["sd", "home", "vdir", "s d"].contains(&e.file_name().to_string_lossy().as_ref()) && d == workdir;
+                if !keep {
+                    let _ = if p.is_dir() { std::fs::remove_dir_all(&p) } else { std::fs::remove_file(&p) };
+                }
+            }
         }
     }
     match res {
@@ -133,15 +162,19 @@ fn run_case_in(c: &Case, acc: &mut Acc, scratch: &str) {
     acc.eval();
     acc.nontrivial();
     let d = worker_dir(scratch);
-    let (kind, observed) = verdict(c.ctx, &c.name, &d);
+    let (kind, observed) = verdict(c.ctx, &c.name, &d, c.loc);
+    if kind == "skipped" {
+        return;
+    }
     if kind == "ok" {
-        acc.outcome(&format!("ok:inprocess:{}", CONTEXTS[c.ctx]));
+        acc.outcome(&format!("ok:inprocess:{}:{}", CONTEXTS[c.ctx], LOCATIONS[c.loc].0));
         acc.state(&format!("{}|ok", CONTEXTS[c.ctx]));
         acc.sample(c.repr());
     } else {
         acc.outcome(&format!("deviation:inprocess:{}", kind));
         acc.state(&format!("{}|{}", CONTEXTS[c.ctx], kind));
-        acc.violation(&format!("{}:{}:[{}]", kind, CONTEXTS[c.ctx], name_class(&c.name)), c.repr(), json!({"argv": [format!("PREFIX{}", c.name)]}), observed);
+        let locs = if c.loc == 0 { String::new() } else { format!(":in-{}", LOCATIONS[c.loc].0) };
+        acc.violation(&format!("{}:{}{}:[{}]", kind, CONTEXTS[c.ctx], locs, name_class(&c.name)), c.repr(), json!({"argv": [format!("PREFIX{}", c.name)]}), observed);
     }
 }
 
@@ -161,15 +194,15 @@ pub fn run(ctx: &Ctx) -> Value {
     let mut mismatches: Vec<Value> = Vec::new();
     if let Some(vfile) = ctx.args.get(1) {
         if let Ok(text) = std::fs::read_to_string(vfile) {
-            let list: Vec<(String, String, String)> = serde_json::from_str(&text).unwrap_or_default();
+            let list: Vec<(String, String, String, usize)> = serde_json::from_str(&text).unwrap_or_default();
             let d = worker_dir(&scratch);
-            for (c, name, pty_kind) in list {
+            for (c, name, pty_kind, loc) in list {
                 let ci = match c.as_str() { "U" => 0, "S" => 1, "D" => 2, _ => 3 };
-                let (kind, observed) = verdict(ci, &name, &d);
+                let (kind, observed) = verdict(ci, &name, &d, loc);
                 conf_checked += 1;
                 if (kind == "ok") != (pty_kind == "ok") {
                     if mismatches.len() < 20 {
-                        mismatches.push(json!({"context": CONTEXTS[ci], "name": name, "real_editor": pty_kind, "in_process": kind, "observed": observed}));
+                        mismatches.push(json!({"context": CONTEXTS[ci], "location": LOCATIONS[loc].0, "name": name, "real_editor": pty_kind, "in_process": kind, "observed": observed}));
                     } else {
                         mismatches.push(Value::Null);
                     }
@@ -195,7 +228,14 @@ pub fn run(ctx: &Ctx) -> Value {
         let t = Instant::now();
         let sc = scratch.clone();
         let gen = move || -> Box<dyn Iterator<Item = Case>> {
-            Box::new(explore::strings_of_len(&ALPHA, len).flat_map(|name| (0..CONTEXTS.len()).map(move |ctx| Case { ctx, name: name.clone() })))
+            // names of length <= 2 in every location, longer ones in the working directory only
+            let nloc = if len <= 2 { LOCATIONS.len() } else { 1 };
+            Box::new(explore::strings_of_len(&ALPHA, len).flat_map(move |name| {
+                (0..CONTEXTS.len()).flat_map(move |ctx| {
+                    let name = name.clone();
+                    (0..nloc).map(move |loc| Case { ctx, name: name.clone(), loc })
+                })
+            }))
         };
         let r = explore::par_sweep(gen, move |c: &Case, acc: &mut Acc| run_case_in(c, acc, &sc), &opts);
         levels.push(json!({"layer": "in-process completion + plan", "name_length": len, "cases": r.cases, "complete": !r.capped, "wall_s": t.elapsed().as_secs_f64()}));
